@@ -132,6 +132,27 @@ ROUND7 = {
 for _k, _v in ROUND7.items():
     TABLE[_k]['text'] += '; round 7: ' + _v
 
+ROUND8 = {
+ 'C02': 'bursts handled by coroutine and plain handlers alike (asyncio pairing)',
+ 'C03': 'emit whose awaiting coroutine is cancelled / times out while the send to some members is still in progress (slow transport): every member still receives once',
+ 'C04': 'room tables scanned for ghost members after every refused CONNECT',
+ 'C06': 'call() whose acknowledgement is handled from within the send of the event',
+ 'C07': 'delivered payloads compared with the emitted ones on every host',
+ 'C09': 'events named like lifecycle notifications',
+ 'C10': 'attempts in which one of several namespaces is refused; follow-up losses after attempts that lost the transport',
+ 'C11': 'module-level containers of the package are roots of the measured object graph',
+ 'C12': 'id / attachment-count fields of several hundred thousand digits under the per-frame CPU budget; accept-all servers; CONNECTs with non-string namespaces (msgpack); a bystander leaves after the attack (handler once, forgotten)',
+ 'C13': 'a slot or class-based namespace registered again replaces the earlier registration',
+ 'C14': 'acknowledgements with the right id and a non-list payload; receive(timeout=0) in SimpleClient scripts; engine.io heartbeat steps in server scripts',
+ 'C15': 'application callbacks that use the server again while the listener runs them; the threaded manager\'s locks detect a thread acquiring one it holds (self-deadlock) instead of hanging',
+ 'C16': 'a fresh session saved while a session() block is open',
+ 'C17': 'exceptions raised by the underlying method come out of the helper unchanged',
+ 'C18': 'engine.io heartbeat step (ping task of a transport) on plain vs instrumented servers in every mode',
+ 'C19': 'non-blocking polls after the connection has ended for good (found the defect repaired in 30e1f79)',
+}
+for _k, _v in ROUND8.items():
+    TABLE[_k]['text'] += '; round 8: ' + _v
+
 
 def main():
     checks = []
